@@ -170,20 +170,21 @@ pub fn check_payload(m: &Message, s: &Shape, bt: &Built) {
 pub fn parse_identity(s: &Shape, tail: usize) {
     let bt = build(s, tail, None, None);
     let input = bt.buf.slice();
-    match dlt_message(input, None, s.storage) {
+    let r = dlt_message(input, None, s.storage);
+    match &r {
         Ok((rest, ParsedMessage::Item(m))) => {
             // remainder is exactly what followed the message
             assert!(rest.len() == tail, "remainder length");
             assert!(rest.as_ptr() as usize == input.as_ptr() as usize + bt.msg_end, "remainder start");
-            check_headers(&m, s.storage, s.htyp, s.msin, &bt.h, bt.payload_len as u16);
-            check_payload(&m, s, &bt);
+            check_headers(m, s.storage, s.htyp, s.msin, &bt.h, bt.payload_len as u16);
+            check_payload(m, s, &bt);
             kani::cover!(true, "parsed to a message");
-            std::mem::forget(m);
         }
         Ok((_, ParsedMessage::FilteredOut(_))) => assert!(false, "filtered without a filter"),
         Ok((_, ParsedMessage::Invalid)) => assert!(false, "well-formed message reported invalid"),
         Err(_) => assert!(false, "well-formed message rejected"),
     }
+    std::mem::forget(r);
 }
 
 // HTYP literals: version 1 in bits 5..7
@@ -221,7 +222,7 @@ p_harness!(c01_p_control_le, 20, Shape { storage: false, htyp: H_EXT_LE, msin: M
 p_harness!(c01_p_verbose_bool_le, 20, Shape { storage: false, htyp: H_EXT_LE, msin: M_LOG_INFO_V, ids: IDS_FULL, payload: P::Verbose(&[arg(AK::Bool)]) }, 2);
 p_harness!(c01_p_verbose_u32_named_be_storage, 20, Shape { storage: true, htyp: H_ALL_BE, msin: M_LOG_INFO_V, ids: IDS_FULL, payload: P::Verbose(&[arg_v(AK::U(4), 2, 1)]) }, 2);
 p_harness!(c01_p_verbose_string_le, 20, Shape { storage: false, htyp: H_EXT_LE, msin: M_APP_V, ids: IDS_SHORT, payload: P::Verbose(&[arg(AK::Str)]) }, 2);
-p_harness!(c01_p_nettrace_le, 20, Shape { storage: false, htyp: H_EXT_LE, msin: M_NW_CAN_V, ids: IDS_FULL, payload: P::NetTrace(&[2, 0]) }, 2);
+p_harness!(c01_p_nettrace_le, 20, Shape { storage: false, htyp: H_EXT_LE, msin: M_NW_CAN_V, ids: IDS_FULL, payload: P::NetTrace(&[1, 1]) }, 2);
 p_harness!(c01_p_nettrace_be, 20, Shape { storage: false, htyp: H_EXT_BE, msin: M_NW_CAN_V, ids: IDS_FULL, payload: P::NetTrace(&[3]) }, 2);
 
 /// probe: storage shape with the specification stub of the pattern search
